@@ -1,3 +1,4 @@
+import Mathlib.Algebra.Ring.GeomSum
 import Mathlib.Data.List.Sort
 import Mathlib.LinearAlgebra.Lagrange
 import Mathlib.RingTheory.Polynomial.Cyclotomic.Basic
@@ -1244,6 +1245,1502 @@ theorem tab_fn (l : List F) : tab l.length (fn l) = l := by
 
 theorem tab_add (a b : Nat) (f : Nat → F) : tab (a + b) f = tab a f ++ tab b (fun i => f (a + i)) := by
   simp [tab, List.range_add, List.map_map, Function.comp]
+
+end Field
+
+/-! ## mixed-radix FFT: the function-level correctness argument -/
+section Field
+variable {F : Type} [Field F] [DecidableEq F]
+
+theorem sum_range_mul_eq {M : Type} [AddCommMonoid M] (r m : Nat) (f : Nat → M) :
+    ∑ I ∈ Finset.range (r * m), f I =
+      ∑ l ∈ Finset.range r, ∑ i ∈ Finset.range m, f (r * i + l) := by
+  induction m with
+  | zero => simp
+  | succ m ih =>
+    rw [Nat.mul_succ, Finset.sum_range_add, ih, ← Finset.sum_add_distrib]
+    apply Finset.sum_congr rfl
+    intro l _
+    rw [Finset.sum_range_succ]
+
+/-- the decimation-in-time step: a radix-`r` pass turns the `r` DFTs (size `m`, root `W^r`) of the
+    residue-class subsequences into the DFT (size `r·m`, root `W`) of the whole sequence -/
+theorem passF_step (r m : Nat) (hr : 0 < r) (hm : 0 < m) (W : F) (hW : (W ^ r) ^ m = 1)
+    (x y : Nat → F)
+    (hy : ∀ c, c < r → ∀ j, j < m → y (c * m + j) = dftF m (W ^ r) (fun i => x (r * i + c)) j) :
+    ∀ K, K < r * m → passF r m W y K = dftF (r * m) W x K := by
+  intro K hK
+  have hKm : K % m < m := Nat.mod_lt _ hm
+  unfold passF dftF
+  rw [sum_range_mul_eq, Nat.div_eq_of_lt hK, Nat.mod_eq_of_lt hK]
+  apply Finset.sum_congr rfl
+  intro l hl
+  have hl' := Finset.mem_range.1 hl
+  rw [Nat.zero_mul, Nat.zero_add, hy l hl' _ hKm]
+  unfold dftF
+  rw [Finset.sum_mul]
+  apply Finset.sum_congr rfl
+  intro i _
+  have e : W ^ ((r * i + l) * K) = (W ^ r) ^ (i * (K % m)) * W ^ (l * K) := by
+    have hK2 : K = m * (K / m) + K % m := (Nat.div_add_mod K m).symm
+    have : (W ^ r) ^ (i * K) = (W ^ r) ^ (i * (K % m)) := by
+      conv_lhs => rw [hK2]
+      rw [Nat.mul_add, pow_add, ← Nat.mul_assoc, Nat.mul_comm i m, Nat.mul_assoc, pow_mul, hW,
+        one_pow, one_mul]
+    rw [← this, ← pow_mul, ← pow_add]
+    congr 1; ring
+  rw [e]; ring
+
+/-- a pass commutes with shifting the array by a multiple of the chunk size -/
+theorem passF_shift (r m : Nat) (hrm : 0 < r * m) (W : F) (y : Nat → F) (k : Nat) :
+    passF r m W (fun p => y (k * (r * m) + p)) = fun p => passF r m W y (k * (r * m) + p) := by
+  funext p
+  unfold passF
+  apply Finset.sum_congr rfl
+  intro l _
+  have hm : 0 < m := Nat.pos_of_mul_pos_left hrm
+  have e1 : (k * (r * m) + p) / (r * m) = k + p / (r * m) := by
+    rw [Nat.mul_comm k, Nat.mul_add_div hrm]
+  have e2 : (k * (r * m) + p) % (r * m) = p % (r * m) := by
+    rw [Nat.mul_comm k, Nat.mul_add_mod]
+  have e3 : (k * (r * m) + p) % m = p % m := by
+    rw [show k * (r * m) = m * (k * r) by ring, Nat.mul_add_mod]
+  simp only [e1, e2, e3]
+  rw [show k * (r * m) + (p / (r * m) * (r * m) + l * m + p % m) =
+    (k + p / (r * m)) * (r * m) + l * m + p % m by ring]
+
+/-- the passes for the radix list `R` (head = LAST pass), twiddles from `Ω` of order `n` -/
+def algF (Ω : F) (n : Nat) : List Nat → (Nat → F) → (Nat → F)
+  | [], y => y
+  | r :: R, y => passF r R.prod (Ω ^ (n / (r * R.prod))) (algF Ω n R y)
+
+theorem algF_shift (Ω : F) (n : Nat) : ∀ (R : List Nat), (∀ r ∈ R, 0 < r) → ∀ (y : Nat → F) (k : Nat),
+    algF Ω n R (fun p => y (k * R.prod + p)) = fun p => algF Ω n R y (k * R.prod + p) := by
+  intro R
+  induction R with
+  | nil => intro _ y k; rfl
+  | cons r R ih =>
+    intro hR y k
+    have hr : 0 < r := hR r List.mem_cons_self
+    have hR' : ∀ r' ∈ R, 0 < r' := fun r' h => hR r' (List.mem_cons_of_mem _ h)
+    have hp : 0 < R.prod := List.prod_pos (by simpa using hR')
+    simp only [algF, List.prod_cons]
+    have := ih hR' y (k * r)
+    rw [show k * r * R.prod = k * (r * R.prod) by ring] at this
+    rw [this, passF_shift r R.prod (Nat.mul_pos hr hp)]
+
+theorem pos_cons_mul_add (r : Nat) (R : List Nat) (hr : 0 < r) (i c : Nat) (hc : c < r) :
+    pos (r :: R) (r * i + c) = c * R.prod + pos R i := by
+  rw [pos, Nat.mul_add_mod, Nat.mod_eq_of_lt hc, Nat.mul_add_div hr, Nat.div_eq_of_lt hc,
+    Nat.add_zero]
+
+/-- correctness of the pass sequence: on the digit-reversed input the passes compute the DFT -/
+theorem algF_spec (Ω : F) (n : Nat) (hΩ : Ω ^ n = 1) : ∀ (R : List Nat), (∀ r ∈ R, 0 < r) →
+    R.prod ∣ n → ∀ (x y : Nat → F), (∀ i, i < R.prod → y (pos R i) = x i) →
+    ∀ K, K < R.prod → algF Ω n R y K = dftF R.prod (Ω ^ (n / R.prod)) x K := by
+  intro R
+  induction R with
+  | nil =>
+    intro _ _ x y h K hK
+    simp only [List.prod_nil, Nat.lt_one_iff] at hK
+    subst hK
+    have := h 0 (by simp)
+    simp only [pos] at this
+    simp [algF, dftF, this]
+  | cons r R ih =>
+    intro hR hdvd x y h K hK
+    have hr : 0 < r := hR r List.mem_cons_self
+    have hR' : ∀ r' ∈ R, 0 < r' := fun r' h => hR r' (List.mem_cons_of_mem _ h)
+    have hp : 0 < R.prod := List.prod_pos (by simpa using hR')
+    rw [List.prod_cons] at hdvd hK h ⊢
+    obtain ⟨t, ht⟩ := hdvd
+    have hdvd' : R.prod ∣ n := ⟨r * t, by rw [ht]; ring⟩
+    have e1 : n / (r * R.prod) = t := by rw [ht, Nat.mul_div_cancel_left _ (Nat.mul_pos hr hp)]
+    have e2 : n / R.prod = r * t := by
+      rw [ht, show r * R.prod * t = R.prod * (r * t) by ring, Nat.mul_div_cancel_left _ hp]
+    have hWr : (Ω ^ t) ^ r = Ω ^ (n / R.prod) := by rw [e2, ← pow_mul, Nat.mul_comm]
+    have hW1 : ((Ω ^ t) ^ r) ^ R.prod = 1 := by
+      have e3 : t * (r * R.prod) = n := by rw [ht]; ring
+      rw [← pow_mul, ← pow_mul, e3]; exact hΩ
+    simp only [algF, e1]
+    apply passF_step r R.prod hr hp (Ω ^ t) hW1 x
+    · intro c hc j hj
+      have hs := congrFun (algF_shift Ω n R hR' y c) j
+      rw [← hs, hWr]
+      apply ih hR' hdvd' _ _ _ j hj
+      intro i hi
+      rw [← pos_cons_mul_add r R hr i c hc]
+      apply h
+      calc r * i + c < r * i + r := by omega
+        _ = r * (i + 1) := by ring
+        _ ≤ r * R.prod := Nat.mul_le_mul_left r hi
+    · exact hK
+
+end Field
+
+/-- number of indices `< n` not yet marked in `seen` -/
+def permUnseenCnt (n : Nat) (seen : Array Bool) : Nat :=
+  ((Finset.range n).filter (fun j => seen[j]? = some false)).card
+
+theorem permUnseenCnt_le (n : Nat) (seen : Array Bool) : permUnseenCnt n seen ≤ n := by
+  unfold permUnseenCnt
+  exact (Finset.card_filter_le _ _).trans (by simp)
+
+theorem permUnseenCnt_set_lt (n : Nat) (seen : Array Bool) (i : Nat) (hi : i < n)
+    (hsi : seen[i]? = some false) :
+    permUnseenCnt n (seen.setIfInBounds i true) < permUnseenCnt n seen := by
+  unfold permUnseenCnt
+  apply Finset.card_lt_card
+  rw [Finset.ssubset_iff_of_subset]
+  · refine ⟨i, ?_, ?_⟩
+    · simp [hi, hsi]
+    · simp only [Finset.mem_filter, Finset.mem_range, not_and]
+      intro _
+      rw [Array.getElem?_setIfInBounds]
+      simp
+  · intro j
+    simp only [Finset.mem_filter, Finset.mem_range]
+    rintro ⟨hj, h⟩
+    refine ⟨hj, ?_⟩
+    rw [Array.getElem?_setIfInBounds] at h
+    by_cases hij : i = j
+    · simp [hij] at h
+    · simpa [hij] using h
+
+/-- outer-level invariant of the cycle-walking permutation loop -/
+structure PermInv {F : Type} (perm : Nat → Nat) (a0 : List F) (arr : Array F) (seen : Array Bool) :
+    Prop where
+  hsz1 : arr.size = a0.length
+  hsz2 : seen.size = a0.length
+  I1 : ∀ j, seen[j]? = some true → arr[perm j]? = a0[j]?
+  I2 : ∀ j, seen[j]? = some false → arr[perm j]? = a0[perm j]?
+  I4 : ∀ k : Nat, seen[k]? = some false → arr[k]? = a0[k]?
+
+theorem permuteCycle_inv {F : Type} (perm : Nat → Nat) (a0 : List F)
+    (hmap : ∀ i, i < a0.length → perm i < a0.length)
+    (hinj : ∀ i j, i < a0.length → j < a0.length → perm i = perm j → i = j) :
+    ∀ (fuel : Nat) (arr : Array F) (seen : Array Bool) (i : Nat) (ai : F),
+      arr.size = a0.length → seen.size = a0.length → i < a0.length →
+      (∀ j, seen[j]? = some true → arr[perm j]? = a0[j]?) →
+      (∀ j, seen[j]? = some false → arr[perm j]? = a0[perm j]?) →
+      (∀ k : Nat, seen[k]? = some false → k ≠ i → arr[k]? = a0[k]?) →
+      (seen[i]? = some false → a0[i]? = some ai) →
+      permUnseenCnt a0.length seen < fuel →
+      PermInv perm a0 (permuteCycle perm fuel (arr, seen) i ai).1
+          (permuteCycle perm fuel (arr, seen) i ai).2 ∧
+        (∀ j : Nat, seen[j]? = some true → (permuteCycle perm fuel (arr, seen) i ai).2[j]? = some true) ∧
+        (permuteCycle perm fuel (arr, seen) i ai).2[i]? = some true := by
+  intro fuel
+  induction fuel with
+  | zero => intro arr seen i ai _ _ _ _ _ _ _ h; omega
+  | succ fuel ih =>
+    intro arr seen i ai hs1 hs2 hi I1 I2 I4 Iai hcnt
+    have hsi : seen[i]? = some seen[i] := Array.getElem?_eq_getElem (by omega)
+    cases hb : seen[i] with
+    | true =>
+      rw [hb] at hsi
+      simp only [permuteCycle, hsi]
+      refine ⟨⟨hs1, hs2, I1, I2, ?_⟩, fun j h => h, trivial⟩
+      intro k hk
+      apply I4 k hk
+      rintro rfl
+      rw [hsi] at hk; cases hk
+    | false =>
+      rw [hb] at hsi
+      have hd : perm i < arr.size := by have := hmap i hi; omega
+      have hdest : arr[perm i]? = some arr[perm i] := Array.getElem?_eq_getElem hd
+      have hlt : ∀ j b, seen[j]? = some b → j < a0.length := by
+        intro j b h
+        by_contra hc
+        rw [Array.getElem?_eq_none (by omega)] at h
+        cases h
+      simp only [permuteCycle, hsi, hdest]
+      have key := ih (arr.setIfInBounds (perm i) ai) (seen.setIfInBounds i true) (perm i)
+        arr[perm i] (by simp [hs1]) (by simp [hs2]) (hmap i hi) ?_ ?_ ?_ ?_ ?_
+      · obtain ⟨k1, k2, k3⟩ := key
+        refine ⟨k1, ?_, ?_⟩
+        · intro j hj
+          apply k2
+          rw [Array.getElem?_setIfInBounds]
+          by_cases hij : i = j
+          · subst hij; rw [hsi] at hj; cases hj
+          · simp [hij, hj]
+        · apply k2
+          rw [Array.getElem?_setIfInBounds]
+          simp; omega
+      · -- I1
+        intro j hj
+        rw [Array.getElem?_setIfInBounds] at hj
+        rw [Array.getElem?_setIfInBounds]
+        by_cases hij : i = j
+        · subst hij
+          simp [hd, Iai hsi]
+        · simp only [hij, if_false] at hj
+          have hne : perm i ≠ perm j := fun h => hij (hinj i j hi (hlt j _ hj) h)
+          simp only [hne, if_false]
+          exact I1 j hj
+      · -- I2
+        intro j hj
+        rw [Array.getElem?_setIfInBounds] at hj
+        rw [Array.getElem?_setIfInBounds]
+        by_cases hij : i = j
+        · subst hij
+          simp at hj
+        · simp only [hij, if_false] at hj
+          have hne : perm i ≠ perm j := fun h => hij (hinj i j hi (hlt j _ hj) h)
+          simp only [hne, if_false]
+          exact I2 j hj
+      · -- I4'
+        intro k hk hne
+        rw [Array.getElem?_setIfInBounds] at hk
+        rw [Array.getElem?_setIfInBounds]
+        by_cases hik : i = k
+        · subst hik
+          simp at hk
+        · simp only [hik, if_false] at hk
+          simp only [Ne.symm hne, if_false]
+          exact I4 k hk (Ne.symm hik)
+      · -- Iai
+        intro _
+        rw [← I2 i hsi, hdest]
+      · have := permUnseenCnt_set_lt a0.length seen i hi hsi
+        omega
+
+theorem applyPermutation_fold {F : Type} (perm : Nat → Nat) (a0 : List F)
+    (hmap : ∀ i, i < a0.length → perm i < a0.length)
+    (hinj : ∀ i j, i < a0.length → j < a0.length → perm i = perm j → i = j) :
+    ∀ m, m ≤ a0.length →
+      PermInv perm a0
+        ((List.range m).foldl (fun (st : Array F × Array Bool) k =>
+          match st.1[k]? with
+          | some ak => permuteCycle perm (a0.length + 1) st k ak
+          | none => st) (a0.toArray, Array.replicate a0.length false)).1
+        ((List.range m).foldl (fun (st : Array F × Array Bool) k =>
+          match st.1[k]? with
+          | some ak => permuteCycle perm (a0.length + 1) st k ak
+          | none => st) (a0.toArray, Array.replicate a0.length false)).2 ∧
+      ∀ k, k < m →
+        ((List.range m).foldl (fun (st : Array F × Array Bool) k =>
+          match st.1[k]? with
+          | some ak => permuteCycle perm (a0.length + 1) st k ak
+          | none => st) (a0.toArray, Array.replicate a0.length false)).2[k]? = some true := by
+  intro m
+  induction m with
+  | zero =>
+    intro _
+    refine ⟨⟨by simp, by simp, ?_, ?_, ?_⟩, by intro k hk; omega⟩
+    · intro j hj
+      simp only [List.range_zero, List.foldl_nil] at hj
+      rw [Array.getElem?_replicate] at hj
+      split at hj <;> cases hj
+    · intro j hj
+      simp
+    · intro j hj
+      simp
+  | succ m ih =>
+    intro hm
+    obtain ⟨inv, hall⟩ := ih (by omega)
+    rw [List.range_succ, List.foldl_append]
+    generalize ((List.range m).foldl (fun (st : Array F × Array Bool) k =>
+          match st.1[k]? with
+          | some ak => permuteCycle perm (a0.length + 1) st k ak
+          | none => st) (a0.toArray, Array.replicate a0.length false)) = st at inv hall ⊢
+    obtain ⟨arr, seen⟩ := st
+    simp only at inv hall
+    have hmlt : m < arr.size := by have := inv.hsz1; omega
+    have hget : arr[m]? = some arr[m] := Array.getElem?_eq_getElem hmlt
+    simp only [List.foldl_cons, List.foldl_nil, hget]
+    have key := permuteCycle_inv perm a0 hmap hinj (a0.length + 1) arr seen m arr[m]
+      inv.hsz1 inv.hsz2 (by omega) inv.I1 inv.I2 (fun k hk _ => inv.I4 k hk)
+      (fun h => by rw [← inv.I4 m h, hget])
+      (by have := permUnseenCnt_le a0.length seen; omega)
+    obtain ⟨k1, k2, k3⟩ := key
+    refine ⟨k1, ?_⟩
+    intro k hk
+    by_cases hkm : k = m
+    · subst hkm; exact k3
+    · exact k2 k (hall k (by omega))
+
+theorem applyPermutation_spec {F : Type} (perm : Nat → Nat) (a : List F)
+    (hmap : ∀ i, i < a.length → perm i < a.length)
+    (hinj : ∀ i j, i < a.length → j < a.length → perm i = perm j → i = j) :
+    (applyPermutation perm a).length = a.length ∧
+    ∀ i, i < a.length → (applyPermutation perm a)[perm i]? = a[i]? := by
+  obtain ⟨inv, hall⟩ := applyPermutation_fold perm a hmap hinj a.length le_rfl
+  unfold applyPermutation
+  refine ⟨?_, ?_⟩
+  · simp only [Array.length_toList]
+    exact inv.hsz1
+  · intro i hi
+    simp only [Array.getElem?_toList]
+    exact inv.I1 i (hall i hi)
+
+/-- non-vacuity: a genuine 3-cycle on a 4-element list -/
+example : applyPermutation (fun i => if i < 3 then (i + 1) % 3 else i) [10, 20, 30, 40]
+    = [30, 10, 20, 40] := by decide
+
+/-! ## bit reversal (`utils::bitreverse`, `bitreverse_permutation_in_place`) -/
+
+theorem pos_replicate_two_succ (w i : Nat) :
+    pos (List.replicate (w + 1) 2) i = (i % 2) * 2 ^ w + pos (List.replicate w 2) (i / 2) := by
+  rw [List.replicate_succ, pos, List.prod_replicate]
+
+theorem pos_replicate_two_lt (w k : Nat) : pos (List.replicate w 2) k < 2 ^ w := by
+  induction w generalizing k with
+  | zero => simp [pos]
+  | succ w ih =>
+    rw [pos_replicate_two_succ, Nat.pow_succ]
+    have h1 := ih (k / 2)
+    have h2 : k % 2 < 2 := Nat.mod_lt _ (by omega)
+    generalize pos (List.replicate w 2) (k / 2) = y at h1
+    generalize 2 ^ w = P at *
+    rcases (by omega : k % 2 = 0 ∨ k % 2 = 1) with h | h <;> rw [h] <;> omega
+
+/-- second recursion: the new most significant input bit becomes the least significant output bit -/
+theorem pos_replicate_two_succ' (w i : Nat) :
+    pos (List.replicate (w + 1) 2) i = 2 * pos (List.replicate w 2) i + (i / 2 ^ w) % 2 := by
+  induction w generalizing i with
+  | zero => simp [pos]
+  | succ w ih =>
+    rw [pos_replicate_two_succ, ih (i / 2), pos_replicate_two_succ w i, Nat.div_div_eq_div_mul,
+      ← Nat.pow_succ', Nat.pow_succ]
+    generalize pos (List.replicate w 2) (i / 2) = y
+    generalize (i / (2 ^ w * 2)) % 2 = z
+    generalize 2 ^ w = P
+    rcases (by omega : i % 2 = 0 ∨ i % 2 = 1) with h | h <;> rw [h] <;> omega
+
+theorem pos_replicate_two_add_mul (w x c : Nat) :
+    pos (List.replicate w 2) (x + c * 2 ^ w) = pos (List.replicate w 2) x := by
+  induction w generalizing x with
+  | zero => simp [pos]
+  | succ w ih =>
+    rw [pos_replicate_two_succ, pos_replicate_two_succ]
+    have e1 : (x + c * 2 ^ (w + 1)) % 2 = x % 2 := by
+      rw [Nat.pow_succ, ← Nat.mul_assoc]; omega
+    have e2 : (x + c * 2 ^ (w + 1)) / 2 = x / 2 + c * 2 ^ w := by
+      rw [Nat.pow_succ, ← Nat.mul_assoc]; omega
+    rw [e1, e2, ih]
+
+theorem pos_replicate_two_invol (w k : Nat) (hk : k < 2 ^ w) :
+    pos (List.replicate w 2) (pos (List.replicate w 2) k) = k := by
+  induction w generalizing k with
+  | zero => simp [pos]; omega
+  | succ w ih =>
+    have hk2 : k / 2 < 2 ^ w := by rw [Nat.pow_succ] at hk; omega
+    have hy := pos_replicate_two_lt w (k / 2)
+    have hinv := ih (k / 2) hk2
+    rw [pos_replicate_two_succ w k, pos_replicate_two_succ', Nat.add_comm (k % 2 * 2 ^ w),
+      pos_replicate_two_add_mul, hinv]
+    have e : (pos (List.replicate w 2) (k / 2) + k % 2 * 2 ^ w) / 2 ^ w = k % 2 := by
+      rw [Nat.add_mul_div_right _ _ (Nat.two_pow_pos w), Nat.div_eq_of_lt hy]; omega
+    rw [e]; omega
+
+theorem bitreverse_fold (w : Nat) (hw : w ≤ 32) (k : Nat) (hk : k < 2 ^ w) (t : Nat) (ht : t ≤ w) :
+    (List.range t).foldl
+      (fun (st : Nat × Nat) _ => (((st.1 * 2) % 2 ^ 32) ||| (st.2 % 2), st.2 / 2)) (0, k)
+      = (pos (List.replicate t 2) k, k / 2 ^ t) := by
+  induction t with
+  | zero => simp [pos]
+  | succ t ih =>
+    rw [List.range_succ, List.foldl_append, ih (by omega)]
+    simp only [List.foldl_cons, List.foldl_nil]
+    have hlt := pos_replicate_two_lt t k
+    have hp : 2 ^ t ≤ 2 ^ 31 := Nat.pow_le_pow_right (by omega) (by omega)
+    have h2 : (k / 2 ^ t) % 2 < 2 ^ 1 := Nat.mod_lt _ (by omega)
+    rw [pos_replicate_two_succ', Nat.div_div_eq_div_mul, ← Nat.pow_succ,
+      Nat.mod_eq_of_lt (by omega), Nat.mul_comm _ 2]
+    have := Nat.two_pow_add_eq_or_of_lt h2 (pos (List.replicate t 2) k)
+    rw [Nat.pow_one] at this
+    rw [this]
+
+theorem bitreverse_eq_pos (w : Nat) (hw : w ≤ 32) (k : Nat) (hk : k < 2 ^ w) :
+    bitreverse k w = pos (List.replicate w 2) k := by
+  have hp : 2 ^ w ≤ 2 ^ 32 := Nat.pow_le_pow_right (by omega) hw
+  unfold bitreverse
+  rw [Nat.mod_eq_of_lt (by omega), bitreverse_fold w hw k hk w (le_refl _)]
+
+/-- the swap loop of an involution `r` of `[0,n)` realises the permutation `r` -/
+theorem swapLoop_spec {F : Type} (n : Nat) (r : Nat → Nat) (hr : ∀ i, i < n → r i < n)
+    (hinv : ∀ i, i < n → r (r i) = i) (arr : Array F) (harr : arr.size = n)
+    (K : Nat) (hK : K ≤ n) :
+    ∃ arr' : Array F,
+      (List.range K).foldl (fun (st : Option (Array F)) k =>
+        match st with
+        | none => none
+        | some arr =>
+          if k < r k then (if r k < n then some (arr.swapIfInBounds k (r k)) else none)
+          else some arr)
+        (some arr) = some arr' ∧ arr'.size = n ∧
+      ∀ i, i < n → arr'[i]? = if min i (r i) < K then arr[r i]? else arr[i]? := by
+  induction K with
+  | zero => exact ⟨arr, rfl, harr, fun i hi => by simp⟩
+  | succ K ih =>
+    obtain ⟨a', e, hs, hg⟩ := ih (by omega)
+    rw [List.range_succ, List.foldl_append, e]
+    simp only [List.foldl_cons, List.foldl_nil]
+    have hKn : K < n := by omega
+    have hrK := hr K hKn
+    by_cases hlt : K < r K
+    · rw [if_pos hlt, if_pos hrK]
+      refine ⟨_, rfl, by simp [hs], ?_⟩
+      intro i hi
+      have hsw : a'.swapIfInBounds K (r K) = a'.swap K (r K) (by omega) (by omega) := by
+        rw [Array.swapIfInBounds_def, dif_pos (by omega), dif_pos (by omega)]
+      rw [hsw, Array.getElem?_swap]
+      have gK := hg K hKn
+      have grK := hg (r K) hrK
+      rw [hinv K hKn] at grK
+      rw [if_neg (by omega)] at gK grK
+      have aK : a'[K]? = some (a'[K]'(by omega)) := Array.getElem?_eq_getElem (by omega)
+      have arK : a'[r K]? = some (a'[r K]'(by omega)) := Array.getElem?_eq_getElem (by omega)
+      by_cases h1 : r K = i
+      · rw [if_pos h1, ← aK, gK]
+        subst h1
+        rw [hinv K hKn, if_pos (by omega)]
+      · rw [if_neg h1]
+        by_cases h2 : K = i
+        · rw [if_pos h2, ← arK, grK]
+          subst h2
+          rw [if_pos (by omega)]
+        · rw [if_neg h2, hg i hi]
+          have h3 : r i ≠ K := by
+            intro h; apply h1; rw [← h, hinv i hi]
+          by_cases h4 : min i (r i) < K
+          · rw [if_pos h4, if_pos (by omega)]
+          · rw [if_neg h4, if_neg (by omega)]
+    · rw [if_neg hlt]
+      refine ⟨a', rfl, hs, ?_⟩
+      intro i hi
+      rw [hg i hi]
+      by_cases h4 : min i (r i) < K
+      · rw [if_pos h4, if_pos (by omega)]
+      · rw [if_neg h4]
+        by_cases h5 : min i (r i) < K + 1
+        · rw [if_pos h5]
+          have h6 : r i = i := by
+            rcases (by omega : i = K ∨ r i = K) with h | h
+            · subst h; omega
+            · have := hinv i hi
+              rw [h] at this
+              omega
+          rw [h6]
+        · rw [if_neg h5]
+
+theorem bitreversePermutation_spec {F : Type} (a : List F) (w : Nat) (hw : w ≤ 32)
+    (hlen : a.length = 2 ^ w) :
+    ∃ b, bitreversePermutation a w = .ok b ∧ b.length = a.length ∧
+      ∀ i, i < a.length → b[pos (List.replicate w 2) i]? = a[i]? := by
+  have hfold : ∀ (s : Option (Array F)),
+      (List.range a.length).foldl (fun (st : Option (Array F)) k =>
+        match st with
+        | none => none
+        | some arr =>
+          if k < bitreverse k w then
+            (if bitreverse k w < a.length then some (arr.swapIfInBounds k (bitreverse k w)) else none)
+          else some arr) s =
+      (List.range a.length).foldl (fun (st : Option (Array F)) k =>
+        match st with
+        | none => none
+        | some arr =>
+          if k < pos (List.replicate w 2) k then
+            (if pos (List.replicate w 2) k < a.length then
+              some (arr.swapIfInBounds k (pos (List.replicate w 2) k)) else none)
+          else some arr) s := by
+    intro s
+    apply List.foldl_ext
+    intro st k hk
+    rw [bitreverse_eq_pos w hw k (by rw [← hlen]; exact List.mem_range.1 hk)]
+  obtain ⟨arr', e, hs, hg⟩ := swapLoop_spec (F := F) a.length (pos (List.replicate w 2))
+    (fun i _ => by rw [hlen]; exact pos_replicate_two_lt w i)
+    (fun i hi => pos_replicate_two_invol w i (by rw [← hlen]; exact hi))
+    a.toArray (by simp) a.length (le_refl _)
+  refine ⟨arr'.toList, ?_, by simp [hs], ?_⟩
+  · unfold bitreversePermutation
+    simp only []
+    erw [hfold, e]
+  · intro i hi
+    have hri : pos (List.replicate w 2) i < a.length := by
+      rw [hlen]; exact pos_replicate_two_lt w i
+    have := hg _ hri
+    rw [pos_replicate_two_invol w i (by rw [← hlen]; exact hi), if_pos (by omega)] at this
+    simpa using this
+
+example : ∃ b, bitreversePermutation [10, 11, 12, 13, 14, 15, 16, 17] 3 = .ok b ∧
+    b = [10, 14, 12, 16, 11, 15, 13, 17] := ⟨_, by decide +kernel, rfl⟩
+
+section QChunk
+variable {F : Type} [Field F] [DecidableEq F]
+
+theorem qc_cpmc_eq (n : Nat) (w v : F) :
+    computePowersAndMulByConstSerial n w v = (List.range n).map (fun i => v * w ^ i) := by
+  induction n generalizing v with
+  | zero => simp [computePowersAndMulByConstSerial]
+  | succ n ih =>
+    rw [computePowersAndMulByConstSerial, ih, List.range_succ_eq_map]
+    simp only [List.map_cons, pow_zero, mul_one, List.map_map, List.cons.injEq, true_and]
+    apply List.map_congr_left
+    intro i _
+    simp only [Function.comp, pow_succ]
+    ring
+
+theorem qc_powers_eq (n : Nat) (w : F) :
+    computePowersSerial n w = (List.range n).map (fun i => w ^ i) := by
+  rw [computePowersSerial, qc_cpmc_eq]
+  simp
+
+theorem qc_transposeAux_eq (n : Nat) (ls : List (List F)) :
+    transposeAux n ls = (List.range n).map (fun j => ls.filterMap (fun l => l[j]?)) := by
+  induction n generalizing ls with
+  | zero => simp [transposeAux]
+  | succ n ih =>
+    rw [transposeAux, ih, List.range_succ_eq_map]
+    simp only [List.map_cons, List.map_map, headsOf]
+    congr 1
+    · congr 1
+      funext l
+      cases l <;> simp
+    · apply List.map_congr_left
+      intro j _
+      simp only [Function.comp, List.filterMap_map]
+      congr 1
+      funext l
+      cases l <;> simp
+
+theorem qc_transposeAux_rect (n k : Nat) (g : Nat → Nat → F) :
+    transposeAux n ((List.range k).map (fun l => (List.range n).map (fun j => g l j))) =
+      (List.range n).map (fun j => (List.range k).map (fun l => g l j)) := by
+  rw [qc_transposeAux_eq]
+  apply List.map_congr_left
+  intro j hj
+  rw [List.mem_range] at hj
+  rw [List.filterMap_map]
+  rw [← List.filterMap_eq_map]
+  apply List.filterMap_congr
+  intro l _
+  simp [hj]
+
+theorem qc_block_eq (m i : Nat) (c : List F) (h : i * m + m ≤ c.length) :
+    (c.drop (i * m)).take m = (List.range m).map (fun j => fn c (i * m + j)) := by
+  apply List.ext_getElem
+  · simp only [List.length_take, List.length_drop, List.length_map, List.length_range]
+    omega
+  · intro j h1 h2
+    simp only [List.length_map, List.length_range] at h2
+    simp only [List.getElem_take, List.getElem_drop, List.getElem_map, List.getElem_range, fn]
+    rw [List.getD_eq_getElem?_getD, List.getElem?_eq_getElem (by omega), Option.getD_some]
+
+theorem qc_blocks_eq (q m : Nat) (c : List F) (hc : c.length = q * m) :
+    (List.range q).map (fun i => (c.drop (i * m)).take m) =
+      (List.range q).map (fun l => (List.range m).map (fun j => fn c (l * m + j))) := by
+  apply List.map_congr_left
+  intro i hi
+  rw [List.mem_range] at hi
+  apply qc_block_eq
+  rw [hc]
+  calc i * m + m = (i + 1) * m := by ring
+    _ ≤ q * m := Nat.mul_le_mul_right m hi
+
+theorem qc_terms_foldl (wj : F) (rest : List F) (acc : List F) (v : F) :
+    rest.foldl (fun (acc : List F × F) x => (acc.1 ++ [x * acc.2], acc.2 * wj)) (acc, v) =
+      (acc ++ (List.range rest.length).map (fun t => fn rest t * (v * wj ^ t)),
+        v * wj ^ rest.length) := by
+  induction rest generalizing acc v with
+  | nil => simp
+  | cons x xs ih =>
+    rw [List.foldl_cons, ih, List.length_cons, List.range_succ_eq_map]
+    simp only [List.map_cons, List.map_map, List.append_assoc, List.singleton_append, fn,
+      List.getD_cons_zero, pow_zero, mul_one, Prod.mk.injEq]
+    refine ⟨?_, by ring⟩
+    congr 2
+    apply List.map_congr_left
+    intro t _
+    simp only [Function.comp, List.getD_cons_succ, pow_succ]
+    ring
+
+theorem qc_foldl_add_range (n : Nat) (h : Nat → F) (base : F) :
+    (List.range n).foldl (fun acc t => acc + h t) base = base + ∑ t ∈ Finset.range n, h t := by
+  induction n with
+  | zero => simp
+  | succ n ih =>
+    rw [List.range_succ, List.foldl_append, ih, Finset.sum_range_succ]
+    simp only [List.foldl_cons, List.foldl_nil]
+    ring
+
+theorem qc_zip_foldl (n : Nat) (T G : Nat → F) (base : F) :
+    ((List.range n).zip ((List.range n).map T)).foldl
+        (fun acc (lt : Nat × F) => acc + lt.2 * G lt.1) base =
+      base + ∑ t ∈ Finset.range n, T t * G t := by
+  rw [← qc_foldl_add_range]
+  have : (List.range n).zip ((List.range n).map T) = (List.range n).map (fun t => (t, T t)) := by
+    rw [List.zip_map_right]
+    induction (List.range n) with
+    | nil => rfl
+    | cons a l ih => simp [ih]
+  rw [this, List.foldl_map]
+
+theorem qc_qColumn_eq (q : Nat) (hq : 1 ≤ q) (wq wj : F) (u : Nat → F) :
+    qColumn q (computePowersSerial q wq) wj ((List.range q).map u) =
+      (List.range q).map (fun i => ∑ l ∈ Finset.range q, u l * wj ^ l * wq ^ ((i * l) % q)) := by
+  obtain ⟨k, rfl⟩ : ∃ k, q = k + 1 := ⟨q - 1, by omega⟩
+  have hcol : (List.range (k + 1)).map u = u 0 :: (List.range k).map (fun t => u (t + 1)) := by
+    rw [List.range_succ_eq_map]; simp [Function.comp_def]
+  rw [hcol]
+  unfold qColumn
+  simp only
+  rw [qc_terms_foldl]
+  simp only [List.nil_append, List.length_map, List.length_range]
+  have hterms : (List.range k).map
+        (fun t => fn ((List.range k).map (fun t => u (t + 1))) t * (wj * wj ^ t)) =
+      (List.range k).map (fun t => u (t + 1) * wj ^ (t + 1)) := by
+    apply List.map_congr_left
+    intro t ht
+    rw [List.mem_range] at ht
+    have := fn_tab k (fun t => u (t + 1)) ht
+    rw [tab] at this
+    rw [this, pow_succ]
+    ring
+  rw [hterms]
+  apply List.map_congr_left
+  intro i hi
+  rw [qc_zip_foldl k (fun t => u (t + 1) * wj ^ (t + 1))
+    (fun t => ((computePowersSerial (k + 1) wq)[(i * (t + 1)) % (k + 1)]?).getD 0) (u 0)]
+  rw [Finset.sum_range_succ']
+  simp only [pow_zero, mul_one, Nat.mul_zero, Nat.zero_mod]
+  rw [add_comm]
+  congr 1
+  apply Finset.sum_congr rfl
+  intro t _
+  have hlt : (i * (t + 1)) % (k + 1) < k + 1 := Nat.mod_lt _ (by omega)
+  rw [qc_powers_eq]
+  simp [hlt]
+
+theorem qc_tab_flatten (q m : Nat) (f : Nat → F) :
+    tab (q * m) f =
+      ((List.range q).map (fun i => (List.range m).map (fun j => f (i * m + j)))).flatten := by
+  induction q with
+  | zero => simp [tab]
+  | succ q ih =>
+    rw [Nat.succ_mul, tab_add, ih, List.range_succ, List.map_append, List.flatten_append]
+    simp [tab]
+
+theorem qChunk_eq (q m : Nat) (hq : 1 ≤ q) (hm : 1 ≤ m)
+    (wm wq : F) (c : List F) (hc : c.length = q * m) :
+    qChunk q m (computePowersSerial q wq) wm c =
+      tab (q * m) (fun p => ∑ l ∈ Finset.range q,
+        fn c (l * m + p % m) * (wm ^ (p % m)) ^ l * wq ^ ((p / m * l) % q)) := by
+  unfold qChunk
+  simp only
+  rw [qc_blocks_eq q m c hc, qc_transposeAux_rect, qc_powers_eq m wm, List.zipWith_map]
+  have hz : ∀ (l : List Nat) (g : Nat → Nat → List F),
+      List.zipWith g l l = l.map (fun x => g x x) := by
+    intro l g
+    induction l with
+    | nil => rfl
+    | cons a l ih => simp
+  rw [hz]
+  have hcols : (List.range m).map (fun j => qColumn q (computePowersSerial q wq) (wm ^ j)
+        ((List.range q).map (fun l => fn c (l * m + j)))) =
+      (List.range m).map (fun j => (List.range q).map (fun i =>
+        ∑ l ∈ Finset.range q, fn c (l * m + j) * (wm ^ j) ^ l * wq ^ ((i * l) % q))) := by
+    apply List.map_congr_left
+    intro j _
+    exact qc_qColumn_eq q hq wq (wm ^ j) (fun l => fn c (l * m + j))
+  rw [hcols, qc_transposeAux_rect q m (fun j i =>
+        ∑ l ∈ Finset.range q, fn c (l * m + j) * (wm ^ j) ^ l * wq ^ ((i * l) % q)),
+    qc_tab_flatten]
+  congr 1
+  apply List.map_congr_left
+  intro i _
+  apply List.map_congr_left
+  intro j hj
+  rw [List.mem_range] at hj
+  have h1 : (i * m + j) % m = j := by
+    rw [Nat.add_comm, Nat.add_mul_mod_self_right, Nat.mod_eq_of_lt hj]
+  have h2 : (i * m + j) / m = i := by
+    rw [Nat.add_comm, Nat.add_mul_div_right _ _ (by omega), Nat.div_eq_of_lt hj, Nat.zero_add]
+  rw [h1, h2]
+
+/-- non-vacuity: the hypotheses hold for `q = 3`, `m = 2` over `ℚ` -/
+example := qChunk_eq (F := ℚ) 3 2 (by omega) (by omega) 2 3 [1, 2, 3, 4, 5, 6] rfl
+
+end QChunk
+
+/-! ## the digit-reversal position function and `mixed_radix_fft_permute` -/
+
+theorem pos_lt : ∀ (R : List Nat), (∀ r ∈ R, 0 < r) → ∀ i, pos R i < R.prod := by
+  intro R
+  induction R with
+  | nil => intro _ i; simp [pos]
+  | cons r R ih =>
+    intro hR i
+    have hr : 0 < r := hR r List.mem_cons_self
+    have hR' : ∀ r' ∈ R, 0 < r' := fun r' h => hR r' (List.mem_cons_of_mem _ h)
+    have h1 := ih hR' (i / r)
+    have h2 : i % r < r := Nat.mod_lt _ hr
+    rw [pos, List.prod_cons]
+    calc i % r * R.prod + pos R (i / r) < i % r * R.prod + R.prod := by omega
+      _ = (i % r + 1) * R.prod := by ring
+      _ ≤ r * R.prod := Nat.mul_le_mul_right _ h2
+
+theorem pos_inj : ∀ (R : List Nat), (∀ r ∈ R, 0 < r) → ∀ i j, i < R.prod → j < R.prod →
+    pos R i = pos R j → i = j := by
+  intro R
+  induction R with
+  | nil => intro _ i j hi hj _; simp at hi hj; omega
+  | cons r R ih =>
+    intro hR i j hi hj h
+    have hr : 0 < r := hR r List.mem_cons_self
+    have hR' : ∀ r' ∈ R, 0 < r' := fun r' h => hR r' (List.mem_cons_of_mem _ h)
+    have hp : 0 < R.prod := List.prod_pos (by simpa using hR')
+    rw [List.prod_cons] at hi hj
+    simp only [pos] at h
+    have li := pos_lt R hR' (i / r)
+    have lj := pos_lt R hR' (j / r)
+    have hmod : i % r = j % r := by
+      have := congrArg (· / R.prod) h
+      beta_reduce at this
+      rw [Nat.mul_comm (i % r), Nat.mul_comm (j % r), Nat.mul_add_div hp, Nat.mul_add_div hp,
+        Nat.div_eq_of_lt li, Nat.div_eq_of_lt lj] at this
+      omega
+    have hdiv : pos R (i / r) = pos R (j / r) := by rw [hmod] at h; omega
+    have hdi : i / r < R.prod := Nat.div_lt_of_lt_mul hi
+    have hdj : j / r < R.prod := Nat.div_lt_of_lt_mul hj
+    have := ih hR' _ _ hdi hdj hdiv
+    rw [← Nat.div_add_mod i r, ← Nat.div_add_mod j r, this, hmod]
+
+/-- one digit step of `mixed_radix_fft_permute`: state `(res, shift, i)` -/
+def digitStep (r : Nat) (st : Nat × Nat × Nat) : Nat × Nat × Nat :=
+  (st.1 + (st.2.2 % r) * (st.2.1 / r), st.2.1 / r, st.2.2 / r)
+
+theorem digitStep_foldl : ∀ (R : List Nat), (∀ r ∈ R, 0 < r) → ∀ (res s i : Nat),
+    R.foldl (fun st r => digitStep r st) (res, R.prod * s, i) = (res + s * pos R i, s, i / R.prod) := by
+  intro R
+  induction R with
+  | nil => intro _ res s i; simp [pos]
+  | cons r R ih =>
+    intro hR res s i
+    have hr : 0 < r := hR r List.mem_cons_self
+    have hR' : ∀ r' ∈ R, 0 < r' := fun r' h => hR r' (List.mem_cons_of_mem _ h)
+    have e : (r * R.prod * s) / r = R.prod * s := by
+      rw [Nat.mul_assoc, Nat.mul_div_cancel_left _ hr]
+    rw [List.foldl_cons, List.prod_cons, digitStep]
+    simp only [e]
+    rw [ih hR', pos, Nat.div_div_eq_div_mul]
+    congr 1
+    ring
+
+theorem foldl_range_const {α : Type} (f : α → α) (k : Nat) (r : Nat) (g : Nat → α → α)
+    (hg : g r = f) (s : α) :
+    (List.range k).foldl (fun st _ => f st) s = (List.replicate k r).foldl (fun st r => g r st) s := by
+  induction k generalizing s with
+  | zero => rfl
+  | succ k ih =>
+    rw [List.range_succ, List.foldl_append, List.replicate_succ', List.foldl_append, ih]
+    simp [hg]
+
+/-- `mixed_radix_fft_permute` is the digit reversal for the radix list `2^twoAd ++ q^qAd` -/
+theorem mixedRadixFftPermute_eq (twoAd qAd q n i : Nat) (hq : 0 < q)
+    (hn : n = 2 ^ twoAd * q ^ qAd) :
+    mixedRadixFftPermute twoAd qAd q n i =
+      pos (List.replicate twoAd 2 ++ List.replicate qAd q) i := by
+  unfold mixedRadixFftPermute
+  have h2 := foldl_range_const (fun (st : Nat × Nat × Nat) => digitStep 2 st) twoAd 2
+    (fun r st => digitStep r st) rfl (0, n, i)
+  have hq' := fun s => foldl_range_const (fun (st : Nat × Nat × Nat) => digitStep q st) qAd q
+    (fun r st => digitStep r st) rfl s
+  simp only [digitStep] at h2 hq'
+  simp only [h2, hq']
+  have := digitStep_foldl (List.replicate twoAd 2 ++ List.replicate qAd q)
+    (by intro r hr; rcases List.mem_append.1 hr with h | h <;>
+        · rw [List.mem_replicate] at h; omega) 0 1 i
+  simp only [digitStep, List.foldl_append, List.prod_append, List.prod_replicate, Nat.mul_one,
+    Nat.zero_add, Nat.one_mul] at this
+  rw [hn, this]
+
+
+/-! ## the model's passes (`mapChunks`, `qChunk`, butterflies) as `passF` -/
+section Field
+variable {F : Type} [Field F] [DecidableEq F]
+
+theorem passF_index_lt (r m k p l : Nat) (hm : 0 < m) (hp : p < k * (r * m)) (hl : l < r) :
+    p / (r * m) * (r * m) + l * m + p % m < k * (r * m) := by
+  have hrm : 0 < r * m := Nat.mul_pos (by omega) hm
+  have h1 : p / (r * m) < k := Nat.div_lt_of_lt_mul (by rw [Nat.mul_comm]; exact hp)
+  have h2 : p % m < m := Nat.mod_lt _ hm
+  have h3 : (l + 1) * m ≤ r * m := Nat.mul_le_mul_right _ hl
+  have h4 : (p / (r * m) + 1) * (r * m) ≤ k * (r * m) := Nat.mul_le_mul_right _ h1
+  have e3 : (l + 1) * m = l * m + m := by ring
+  have e4 : (p / (r * m) + 1) * (r * m) = p / (r * m) * (r * m) + r * m := by ring
+  omega
+
+/-- a pass only reads the chunk it writes -/
+theorem passF_congr (r m : Nat) (hm : 0 < m) (W : F) (y y' : Nat → F) (k : Nat)
+    (h : ∀ i, i < k * (r * m) → y i = y' i) (p : Nat) (hp : p < k * (r * m)) :
+    passF r m W y p = passF r m W y' p := by
+  unfold passF
+  apply Finset.sum_congr rfl
+  intro l hl
+  rw [h _ (passF_index_lt r m k p l hm hp (Finset.mem_range.1 hl))]
+
+theorem fn_take (l : List F) (n i : Nat) (hi : i < n) : fn (l.take n) i = fn l i := by
+  simp [fn, List.getD, hi]
+
+theorem fn_drop (l : List F) (n i : Nat) : fn (l.drop n) i = fn l (n + i) := by
+  simp [fn, List.getD]
+
+/-- `chunks_mut(r·m).for_each(f)` where `f` is a radix-`r` pass on one chunk -/
+theorem mapChunks_pass (f : List F → List F) (r m : Nat) (hr : 0 < r) (hm : 0 < m) (W : F)
+    (hf : ∀ c : List F, c.length = r * m → f c = tab (r * m) (passF r m W (fn c))) :
+    ∀ (k fuel : Nat) (l : List F), l.length = k * (r * m) → k ≤ fuel →
+      mapChunks f (r * m) fuel l = tab l.length (passF r m W (fn l)) := by
+  have hrm : 0 < r * m := Nat.mul_pos hr hm
+  intro k
+  induction k with
+  | zero =>
+    intro fuel l hl _
+    have : l = [] := List.length_eq_zero_iff.1 (by simpa using hl)
+    subst this
+    cases fuel <;> simp [mapChunks, tab]
+  | succ k ih =>
+    intro fuel l hl hk
+    obtain ⟨fuel', rfl⟩ : ∃ f', fuel = f' + 1 := ⟨fuel - 1, by omega⟩
+    have hlen : l.length = r * m + k * (r * m) := by rw [hl]; ring
+    cases l with
+    | nil => simp at hlen; omega
+    | cons x xs =>
+      rw [mapChunks]
+      generalize x :: xs = l at hl hlen ⊢
+      have htake : (l.take (r * m)).length = r * m := by rw [List.length_take]; omega
+      have hdrop : (l.drop (r * m)).length = k * (r * m) := by rw [List.length_drop]; omega
+      rw [hf _ htake, ih fuel' _ hdrop (by omega), hdrop, hlen, tab_add]
+      congr 1
+      · apply tab_congr
+        intro i hi
+        apply passF_congr r m hm W _ _ 1 _ i (by omega)
+        intro j hj
+        exact fn_take l _ j (by omega)
+      · apply tab_congr
+        intro i _
+        have h1 : fn (l.drop (r * m)) = fun p => fn l (1 * (r * m) + p) := by
+          funext p; rw [fn_drop, Nat.one_mul]
+        rw [h1, passF_shift r m hrm W (fn l) 1, Nat.one_mul]
+
+theorem tab_succ' (N : Nat) (f : Nat → F) : tab (N + 1) f = f 0 :: tab N (fun i => f (i + 1)) := by
+  simp [tab, List.range_succ_eq_map, List.map_map, Function.comp]
+
+theorem zipButterflyOI_tab (m : Nat) : ∀ (u v w : Nat → F),
+    zipButterfly butterflyOI (tab m u) (tab m v) (tab m w) =
+      (tab m (fun j => u j + v j * w j), tab m (fun j => u j - v j * w j)) := by
+  induction m with
+  | zero => intro u v w; simp [tab, zipButterfly]
+  | succ m ih =>
+    intro u v w
+    simp only [tab_succ', zipButterfly, ih, butterflyOI]
+
+theorem stepByAux_one : ∀ (fuel : Nat) (l : List F), l.length ≤ fuel → stepByAux 1 fuel l = l := by
+  intro fuel
+  induction fuel with
+  | zero => intro l h; simp at h; subst h; rfl
+  | succ fuel ih =>
+    intro l h
+    cases l with
+    | nil => rfl
+    | cons x xs =>
+      simp only [stepByAux, Nat.sub_self, List.drop_zero]
+      rw [ih xs (by simpa using h)]
+
+theorem stepBy_one (l : List F) : stepBy 1 l = l := stepByAux_one _ l (le_refl _)
+
+theorem computePowersSerial_eq_tab (n : Nat) (w : F) : computePowersSerial n w = tab n (fun i => w ^ i) :=
+  qc_powers_eq n w
+
+/-- one chunk of a radix-2 pass (`butterfly_fn_oi` with twiddles `wm^j`, `wm^m = −1`) -/
+theorem chunkButterflyOI_eq (m : Nat) (hm : 0 < m) (wm : F) (hw : wm ^ m = -1) (c : List F)
+    (hc : c.length = 2 * m) :
+    chunkButterfly butterflyOI (stepBy 1 (computePowersSerial m wm)) m c =
+      tab (2 * m) (passF 2 m wm (fn c)) := by
+  have h1 : c.take m = tab m (fn c) := by
+    have := tab_fn (c.take m)
+    rw [List.length_take, Nat.min_eq_left (by omega)] at this
+    rw [← this]
+    exact tab_congr (fun i hi => fn_take c m i hi)
+  have h2 : c.drop m = tab m (fun j => fn c (m + j)) := by
+    have := tab_fn (c.drop m)
+    rw [List.length_drop, show c.length - m = m by omega] at this
+    rw [← this]
+    exact tab_congr (fun i hi => fn_drop c m i)
+  rw [chunkButterfly, stepBy_one, computePowersSerial_eq_tab, h1, h2, zipButterflyOI_tab,
+    show 2 * m = m + m by ring, tab_add]
+  have e2 : ∀ j, j < m → (m + j) / (m + m) = 0 ∧ (m + j) % (m + m) = m + j ∧ (m + j) % m = j := by
+    intro j hj
+    refine ⟨Nat.div_eq_of_lt (by omega), Nat.mod_eq_of_lt (by omega), ?_⟩
+    rw [Nat.add_mod_left, Nat.mod_eq_of_lt hj]
+  congr 1
+  · apply tab_congr
+    intro j hj
+    simp only [passF, show 2 * m = m + m by ring, Nat.div_eq_of_lt (show j < m + m by omega),
+      Nat.mod_eq_of_lt (show j < m + m by omega), Nat.mod_eq_of_lt hj, Finset.sum_range_succ,
+      Finset.sum_range_zero]
+    simp
+  · apply tab_congr
+    intro j hj
+    obtain ⟨a1, a2, a3⟩ := e2 j hj
+    simp only [passF, show 2 * m = m + m by ring, a1, a2, a3, Finset.sum_range_succ,
+      Finset.sum_range_zero]
+    simp only [Nat.zero_mul, pow_zero, mul_one, zero_add, Nat.one_mul, pow_add, hw]
+    ring
+
+/-- a full radix-2 pass of the model -/
+theorem applyButterflyOI_eq (m : Nat) (hm : 0 < m) (wm : F) (hw : wm ^ m = -1) (l : List F) (k : Nat)
+    (hl : l.length = k * (2 * m)) :
+    applyButterfly butterflyOI l (computePowersSerial m wm) 1 (2 * m) m =
+      tab l.length (passF 2 m wm (fn l)) := by
+  have hk : k ≤ l.length := by
+    rw [hl]; exact Nat.le_mul_of_pos_right _ (by omega)
+  exact mapChunks_pass _ 2 m (by norm_num) hm wm (chunkButterflyOI_eq m hm wm hw) k _ l hl hk
+
+/-- one chunk of a radix-`q` pass in `passF` form (`q`-th roots `wq = wm^m`, `wq^q = 1`) -/
+theorem qChunk_eq_passF (q m : Nat) (hq : 0 < q) (hm : 0 < m) (wm wq : F) (hwq : wq = wm ^ m)
+    (hq1 : wq ^ q = 1) (c : List F) (hc : c.length = q * m) :
+    qChunk q m (computePowersSerial q wq) wm c = tab (q * m) (passF q m wm (fn c)) := by
+  rw [qChunk_eq q m hq hm wm wq c hc]
+  apply tab_congr
+  intro p hp
+  unfold passF
+  rw [Nat.div_eq_of_lt hp, Nat.mod_eq_of_lt hp, Nat.zero_mul]
+  apply Finset.sum_congr rfl
+  intro l _
+  rw [Nat.zero_add]
+  have e : wm ^ (l * p) = (wm ^ (p % m)) ^ l * wq ^ ((p / m * l) % q) := by
+    have h1 : wq ^ ((p / m * l) % q) = wq ^ (p / m * l) := by
+      conv_rhs => rw [← Nat.div_add_mod (p / m * l) q]
+      rw [pow_add, pow_mul, hq1, one_pow, one_mul]
+    rw [h1, hwq, ← pow_mul, ← pow_mul, ← pow_add]
+    congr 1
+    conv_lhs => rw [← Nat.div_add_mod p m]
+    ring
+  rw [e]; ring
+
+/-- a full radix-`q` pass of the model -/
+theorem mapChunks_qChunk_eq (q m : Nat) (hq : 0 < q) (hm : 0 < m) (wm wq : F) (hwq : wq = wm ^ m)
+    (hq1 : wq ^ q = 1) (l : List F) (k : Nat) (hl : l.length = k * (q * m)) :
+    mapChunks (qChunk q m (computePowersSerial q wq) wm) (q * m) l.length l =
+      tab l.length (passF q m wm (fn l)) := by
+  have hk : k ≤ l.length := by
+    rw [hl]; exact Nat.le_mul_of_pos_right _ (Nat.mul_pos hq hm)
+  exact mapChunks_pass _ q m hq hm wm (qChunk_eq_passF q m hq hm wm wq hwq hq1) k _ l hl hk
+
+end Field
+
+/-! ## `serial_mixed_radix_fft` -/
+section Field
+variable {F : Type} [Field F] [DecidableEq F]
+
+theorem foldl_range_iterate {α : Type} (f : α → α) (t : Nat) (s : α) :
+    (List.range t).foldl (fun st _ => f st) s = f^[t] s := by
+  induction t generalizing s with
+  | zero => rfl
+  | succ t ih =>
+    rw [List.range_succ, List.foldl_append, ih, Function.iterate_succ_apply']
+    rfl
+
+/-- iterating a step that prepends one radix-`r` pass -/
+theorem iterate_pass (ω : F) (n r : Nat) (y0 : Nat → F) (stepfn : List F × Nat → List F × Nat)
+    (R0 : List Nat) (T : Nat)
+    (hstep : ∀ t, t < T → stepfn (tab n (algF ω n (List.replicate t r ++ R0) y0),
+        (List.replicate t r ++ R0).prod) =
+      (tab n (algF ω n (r :: (List.replicate t r ++ R0)) y0), (r :: (List.replicate t r ++ R0)).prod)) :
+    ∀ t, t ≤ T → stepfn^[t] (tab n (algF ω n R0 y0), R0.prod) =
+      (tab n (algF ω n (List.replicate t r ++ R0) y0), (List.replicate t r ++ R0).prod) := by
+  intro t
+  induction t with
+  | zero => intro _; rfl
+  | succ t ih =>
+    intro ht
+    rw [Function.iterate_succ_apply', ih (by omega), hstep t (by omega)]
+    rfl
+
+theorem tab_passF_fn_tab (r m : Nat) (hm : 0 < m) (W : F) (g : Nat → F) (n k : Nat)
+    (hn : n = k * (r * m)) :
+    tab n (passF r m W (fn (tab n g))) = tab n (passF r m W g) := by
+  apply tab_congr
+  intro p hp
+  subst hn
+  apply passF_congr r m hm W _ _ k _ p hp
+  intro i hi
+  exact fn_tab _ g hi
+
+/-- one radix-`q` pass of the model's loop -/
+theorem qStep (ω : F) (n q : Nat) (hq : 0 < q) (hn64 : n < 2 ^ 64) (hω : ω ^ n = 1) (y0 : Nat → F)
+    (R : List Nat) (hR : ∀ r ∈ R, 0 < r) (hdvd : (q :: R).prod ∣ n) :
+    (fun (st : List F × Nat) =>
+      (mapChunks (qChunk q st.2 (computePowersSerial q (pow ω (n / q))) (pow ω (n / (q * st.2))))
+        (q * st.2) st.1.length st.1, st.2 * q)) (tab n (algF ω n R y0), R.prod) =
+    (tab n (algF ω n (q :: R) y0), (q :: R).prod) := by
+  have hp : 0 < R.prod := List.prod_pos (by simpa using hR)
+  obtain ⟨t, ht⟩ := hdvd
+  rw [List.prod_cons] at ht
+  have hnpos_or : True := trivial
+  simp only [List.prod_cons]
+  have e1 : n / (q * R.prod) = t := by rw [ht, Nat.mul_div_cancel_left _ (Nat.mul_pos hq hp)]
+  have e2 : n / q = R.prod * t := by
+    rw [ht, Nat.mul_assoc, Nat.mul_div_cancel_left _ hq]
+  have hle1 : n / (q * R.prod) < 2 ^ 64 := lt_of_le_of_lt (Nat.div_le_self _ _) hn64
+  have hle2 : n / q < 2 ^ 64 := lt_of_le_of_lt (Nat.div_le_self _ _) hn64
+  rw [pow_eq _ _ hle1, pow_eq _ _ hle2]
+  have hwq : ω ^ (n / q) = (ω ^ (n / (q * R.prod))) ^ R.prod := by
+    rw [e1, e2, ← pow_mul, Nat.mul_comm]
+  have hq1 : (ω ^ (n / q)) ^ q = 1 := by
+    rw [e2, ← pow_mul, show R.prod * t * q = n by rw [ht]; ring, hω]
+  have hlen : (tab n (algF ω n R y0)).length = t * (q * R.prod) := by
+    rw [tab_length, ht, Nat.mul_comm]
+  rw [mapChunks_qChunk_eq q R.prod hq hp _ _ hwq hq1 _ t hlen, tab_length,
+    tab_passF_fn_tab q R.prod hp _ _ n t (by rw [ht, Nat.mul_comm])]
+  simp only [algF, Nat.mul_comm R.prod q]
+
+/-- one radix-2 pass of the model's loop -/
+theorem twoStep (ω : F) (n : Nat) (hn64 : n < 2 ^ 64) (hω : IsPrimitiveRoot ω n) (y0 : Nat → F)
+    (R : List Nat) (hR : ∀ r ∈ R, 0 < r) (hdvd : (2 :: R).prod ∣ n) (hn : 0 < n) :
+    (fun (st : List F × Nat) =>
+      (applyButterfly butterflyOI st.1 (computePowersSerial st.2 (pow ω (n / (2 * st.2)))) 1
+        (2 * st.2) st.2, st.2 * 2)) (tab n (algF ω n R y0), R.prod) =
+    (tab n (algF ω n (2 :: R) y0), (2 :: R).prod) := by
+  have hp : 0 < R.prod := List.prod_pos (by simpa using hR)
+  obtain ⟨t, ht⟩ := hdvd
+  rw [List.prod_cons] at ht
+  simp only [List.prod_cons]
+  have e1 : n / (2 * R.prod) = t := by rw [ht, Nat.mul_div_cancel_left _ (Nat.mul_pos (by norm_num) hp)]
+  have htpos : 0 < t := by
+    rcases Nat.eq_zero_or_pos t with h | h
+    · rw [h, Nat.mul_zero] at ht; omega
+    · exact h
+  have hle1 : n / (2 * R.prod) < 2 ^ 64 := lt_of_le_of_lt (Nat.div_le_self _ _) hn64
+  rw [pow_eq _ _ hle1]
+  have hw : (ω ^ (n / (2 * R.prod))) ^ R.prod = -1 := by
+    rw [e1, ← pow_mul]
+    have hd : t * R.prod ∣ n := ⟨2, by rw [ht]; ring⟩
+    have := hω.pow_of_dvd (Nat.mul_pos htpos hp).ne' hd
+    have e : n / (t * R.prod) = 2 := by
+      rw [ht, show 2 * R.prod * t = 2 * (t * R.prod) by ring,
+        Nat.mul_div_cancel _ (Nat.mul_pos htpos hp)]
+    rw [e] at this
+    exact this.eq_neg_one_of_two_right
+  have hlen : (tab n (algF ω n R y0)).length = t * (2 * R.prod) := by
+    rw [tab_length, ht, Nat.mul_comm]
+  rw [applyButterflyOI_eq R.prod hp _ hw _ t hlen, tab_length,
+    tab_passF_fn_tab 2 R.prod hp _ _ n t (by rw [ht, Nat.mul_comm])]
+  simp only [algF, Nat.mul_comm R.prod 2]
+
+end Field
+
+section Field
+variable {F : Type} [Field F] [DecidableEq F]
+
+theorem fn_eq_of_getElem? {l l' : List F} {i j : Nat} (h : l[i]? = l'[j]?) : fn l i = fn l' j := by
+  simp [fn, List.getD, h]
+
+/-- the two pass loops of `serial_mixed_radix_fft` on a digit-reversed array `L0` of `x` -/
+theorem passLoops_spec (ω : F) (n q s k : Nat) (hq : 0 < q) (hn : n = 2 ^ s * q ^ k)
+    (hn64 : n < 2 ^ 64) (hω : IsPrimitiveRoot ω n) (L0 : List F) (hL0 : L0.length = n)
+    (x : Nat → F)
+    (hx : ∀ i, i < n → fn L0 (pos (List.replicate s 2 ++ List.replicate k q) i) = x i) :
+    ((fun (st : List F × Nat) =>
+        (applyButterfly butterflyOI st.1 (computePowersSerial st.2 (pow ω (n / (2 * st.2)))) 1
+          (2 * st.2) st.2, st.2 * 2))^[s]
+      ((fun (st : List F × Nat) =>
+        (mapChunks (qChunk q st.2 (computePowersSerial q (pow ω (n / q))) (pow ω (n / (q * st.2))))
+          (q * st.2) st.1.length st.1, st.2 * q))^[k] (L0, 1))).1 = tab n (dftF n ω x) := by
+  have hnpos : 0 < n := by rw [hn]; exact Nat.mul_pos (Nat.two_pow_pos _) (Nat.pow_pos hq)
+  have h0 : (L0, 1) = (tab n (algF ω n [] (fn L0)), ([] : List Nat).prod) := by
+    rw [← hL0]; simp [algF, tab_fn]
+  have hposq : ∀ t, ∀ r ∈ List.replicate t q ++ ([] : List Nat), 0 < r := by
+    intro t r hr
+    simp only [List.append_nil, List.mem_replicate] at hr
+    omega
+  have hpos2 : ∀ t, ∀ r ∈ List.replicate t 2 ++ (List.replicate k q ++ ([] : List Nat)), 0 < r := by
+    intro t r hr
+    simp only [List.append_nil, List.mem_append, List.mem_replicate] at hr
+    omega
+  rw [h0, iterate_pass ω n q (fn L0) _ [] k
+    (fun t ht => qStep ω n q hq hn64 hω.pow_eq_one (fn L0) _ (hposq t) (by
+      simp only [List.append_nil, List.prod_cons, List.prod_replicate]
+      rw [hn, ← pow_succ']
+      exact Dvd.dvd.mul_left (pow_dvd_pow q (by omega)) _)) k (le_refl k),
+    iterate_pass ω n 2 (fn L0) _ (List.replicate k q ++ []) s
+    (fun t ht => twoStep ω n hn64 hω (fn L0) _ (hpos2 t) (by
+      simp only [List.append_nil, List.prod_cons, List.prod_append, List.prod_replicate]
+      rw [hn, ← Nat.mul_assoc, ← pow_succ']
+      exact Nat.mul_dvd_mul_right (pow_dvd_pow 2 (by omega)) _) hnpos) s (le_refl s)]
+  apply tab_congr
+  intro K hK
+  have hprod : (List.replicate s 2 ++ (List.replicate k q ++ [])).prod = n := by
+    simp [hn]
+  have := algF_spec ω n hω.pow_eq_one _ (hpos2 s) (by rw [hprod]) x (fn L0)
+    (by rw [hprod]; simpa using hx) K (by rw [hprod]; exact hK)
+  rw [this, hprod, Nat.div_self hnpos, pow_one]
+
+/-- `serial_mixed_radix_fft(a, ω, s)` for `|a| = 2^s·q^k < 2^64` and `ω` a primitive `|a|`-th
+    root: no panic, the result is the DFT `[Σ_i a_i·ω^(i·K)]_K`.  (`k = 0`: the 32-bit
+    `bitreverse` needs `s ≤ 32`.) -/
+theorem serialMixedRadixFft_spec (P : Params F) (q : Nat) (hq : P.smallBase = some q) (hq2 : 2 ≤ q)
+    (hodd : q % 2 = 1) (a : List F) (ω : F) (s k : Nat) (hlen : a.length = 2 ^ s * q ^ k)
+    (hlt : a.length < 2 ^ 64) (hω : IsPrimitiveRoot ω a.length) (h32 : k = 0 → s ≤ 32) :
+    serialMixedRadixFft P a ω s = .ok (tab a.length (dftF a.length ω (fn a))) := by
+  obtain ⟨hs64, hk64, hkq, hk2, hqk, h2s⟩ := kAdicity_two_q hq2 hodd s k (hlen ▸ hlt)
+  have hqpos : 0 < q := by omega
+  have hmod : a.length = (q ^ k * 2 ^ s) % U64 := by
+    rw [Nat.mul_comm, ← hlen, Nat.mod_eq_of_lt (by rw [U64_eq]; exact hlt)]
+  have hposR : ∀ r ∈ List.replicate s 2 ++ List.replicate k q, 0 < r := by
+    intro r hr
+    simp only [List.mem_append, List.mem_replicate] at hr
+    omega
+  have hprod : (List.replicate s 2 ++ List.replicate k q).prod = a.length := by simp [hlen]
+  unfold serialMixedRadixFft
+  simp only [hq]
+  rw [hlen, hkq, ← hlen, checkedPow_of_lt hqk, checkedPow_of_lt h2s]
+  simp only []
+  rw [if_neg (not_not.2 hmod)]
+  by_cases hk : k > 0
+  · rw [if_pos hk]
+    simp only [foldl_range_iterate]
+    have hperm : mixedRadixFftPermute s k q a.length =
+        pos (List.replicate s 2 ++ List.replicate k q) := by
+      funext i; exact mixedRadixFftPermute_eq s k q a.length i hqpos hlen
+    obtain ⟨hL, hget⟩ := applyPermutation_spec (mixedRadixFftPermute s k q a.length) a
+      (by intro i _; rw [hperm, ← hprod]; exact pos_lt _ hposR i)
+      (by intro i j hi hj h; rw [hperm] at h
+          exact pos_inj _ hposR i j (by rw [hprod]; exact hi) (by rw [hprod]; exact hj) h)
+    rw [passLoops_spec ω a.length q s k hqpos hlen hlt hω _ hL (fn a)
+      (by intro i hi; rw [← hperm]; exact fn_eq_of_getElem? (hget i hi))]
+  · have hk0 : k = 0 := by omega
+    subst hk0
+    rw [if_neg hk]
+    obtain ⟨b, hb, hbl, hbget⟩ := bitreversePermutation_spec a s (h32 rfl) (by simpa using hlen)
+    rw [hb]
+    simp only [foldl_range_iterate]
+    have := passLoops_spec ω a.length q s 0 hqpos hlen hlt hω b hbl (fn a)
+      (by intro i hi; simp only [List.replicate_zero, List.append_nil]
+          exact fn_eq_of_getElem? (hbget i hi))
+    simp only [Function.iterate_zero, id] at this
+    rw [this]
+
+end Field
+
+/-! ## `MixedRadixEvaluationDomain::fft_in_place` / `ifft_in_place` -/
+section Field
+variable {F : Type} [Field F] [DecidableEq F]
+
+theorem fn_of_length_le (l : List F) {i : Nat} (h : l.length ≤ i) : fn l i = 0 := by
+  simp [fn, List.getD, List.getElem?_eq_none h]
+
+theorem fn_cons_zero (a : F) (l : List F) : fn (a :: l) 0 = a := rfl
+theorem fn_cons_succ (a : F) (l : List F) (i : Nat) : fn (a :: l) (i + 1) = fn l i := rfl
+
+theorem evalL_eq_sum (c : List F) (x : F) :
+    evalL c x = ∑ i ∈ Finset.range c.length, fn c i * x ^ i := by
+  induction c with
+  | nil => simp [evalL]
+  | cons a cs ih =>
+    rw [List.length_cons, Finset.sum_range_succ', fn_cons_zero, pow_zero, mul_one]
+    simp only [fn_cons_succ]
+    have : evalL (a :: cs) x = a + x * evalL cs x := rfl
+    rw [this, ih, Finset.mul_sum, add_comm]
+    congr 1
+    apply Finset.sum_congr rfl
+    intro i _
+    rw [pow_succ]; ring
+
+theorem evalL_eq_sum_of_le (c : List F) (x : F) {n : Nat} (h : c.length ≤ n) :
+    evalL c x = ∑ i ∈ Finset.range n, fn c i * x ^ i := by
+  obtain ⟨e, rfl⟩ := Nat.exists_eq_add_of_le h
+  rw [evalL_eq_sum, Finset.sum_range_add]
+  have : ∑ i ∈ Finset.range e, fn c (c.length + i) * x ^ (c.length + i) = 0 := by
+    apply Finset.sum_eq_zero
+    intro i _
+    rw [fn_of_length_le c (by omega), zero_mul]
+  rw [this, add_zero]
+
+theorem resize_length (l : List F) (n : Nat) (z : F) : (resize l n z).length = n := by
+  simp [resize]; omega
+
+theorem fn_resize_zero (l : List F) (n i : Nat) (hi : i < n) : fn (resize l n 0) i = fn l i := by
+  unfold resize fn
+  simp only [List.getD]
+  by_cases h : i < l.length
+  · rw [List.getElem?_append_left (by simp; omega), List.getElem?_take, if_pos hi]
+  · rw [List.getElem?_append_right (by simp; omega), List.getElem?_replicate,
+      List.getElem?_eq_none (by omega : l.length ≤ i)]
+    split <;> rfl
+
+theorem distributePowersAndMulByConst_eq (xs : List F) (g : F) : ∀ powr : F,
+    distributePowersAndMulByConst xs g powr = tab xs.length (fun i => fn xs i * (powr * g ^ i)) := by
+  induction xs with
+  | nil => intro powr; rfl
+  | cons x xs ih =>
+    intro powr
+    rw [distributePowersAndMulByConst, ih, List.length_cons, tab_succ']
+    simp only [fn_cons_zero, fn_cons_succ, pow_zero, mul_one, List.cons.injEq, true_and]
+    apply tab_congr
+    intro i _
+    rw [pow_succ]; ring
+
+/-- the coefficient vector entering `serial_mixed_radix_fft` -/
+theorem fn_fft_input (d : Domain F) (c : List F) (hc : c.length ≤ d.size) (i : Nat) (hi : i < d.size) :
+    fn (resize (if d.offset ≠ 1 then distributePowers c d.offset else c) d.size 0) i =
+      fn c i * d.offset ^ i := by
+  rw [fn_resize_zero _ _ _ hi]
+  by_cases h : d.offset = 1
+  · simp [h]
+  · simp only [ne_eq, h, not_false_eq_true, if_true, distributePowers,
+      distributePowersAndMulByConst_eq, one_mul]
+    by_cases hi' : i < c.length
+    · rw [fn_tab _ _ hi']
+    · rw [fn_of_length_le _ (by rw [tab_length]; omega), fn_of_length_le c (by omega), zero_mul]
+
+/-- `MixedRadixEvaluationDomain::fft_in_place`: the evaluations of `c` on the (coset) domain -/
+theorem mixedFft_spec (P : Params F) (q : Nat) (hq : P.smallBase = some q) (hq2 : 2 ≤ q)
+    (hodd : q % 2 = 1) (d : Domain F) (hd : d.Good) (k : Nat)
+    (hsize : d.size = 2 ^ d.logSizeOfGroup * q ^ k) (h32 : k = 0 → d.logSizeOfGroup ≤ 32)
+    (c : List F) (hc : c.length ≤ d.size) :
+    mixedFft P d c = .ok ((elements d).map (evalL c)) := by
+  unfold mixedFft
+  have hlen := resize_length (if d.offset ≠ 1 then distributePowers c d.offset else c) d.size 0
+  rw [serialMixedRadixFft_spec P q hq hq2 hodd _ d.groupGen d.logSizeOfGroup k
+    (by rw [hlen]; exact hsize) (by rw [hlen]; exact hd.size_lt) (by rw [hlen]; exact hd.prim) h32,
+    hlen, elements_eq, List.map_map]
+  congr 1
+  apply tab_congr
+  intro K hK
+  rw [Function.comp, evalL_eq_sum_of_le c _ hc]
+  unfold dftF
+  apply Finset.sum_congr rfl
+  intro i hi
+  rw [fn_fft_input d c hc i (Finset.mem_range.1 hi), mul_pow, ← pow_mul, Nat.mul_comm K i, mul_assoc]
+
+/-- orthogonality of the characters of the cyclic group generated by a primitive root -/
+theorem orth_sum {g ginv : F} {n : Nat} (hg : IsPrimitiveRoot g n) (hinv : ginv * g = 1)
+    {j K : Nat} (hj : j < n) (hK : K < n) :
+    ∑ i ∈ Finset.range n, ginv ^ (j * i) * g ^ (K * i) = if j = K then (n : F) else 0 := by
+  have e : ∀ i, ginv ^ (j * i) * g ^ (K * i) = (ginv ^ j * g ^ K) ^ i := by
+    intro i; rw [mul_pow, ← pow_mul, ← pow_mul]
+  simp only [e]
+  by_cases h : j = K
+  · subst h
+    rw [if_pos rfl, ← mul_pow, hinv, one_pow]
+    simp
+  · rw [if_neg h]
+    have hne : ginv ^ j * g ^ K ≠ 1 := by
+      intro e1
+      apply h
+      apply hg.pow_inj hj hK
+      have : g ^ j * (ginv ^ j * g ^ K) = g ^ K := by
+        rw [← mul_assoc, ← mul_pow, mul_comm g ginv, hinv, one_pow, one_mul]
+      rw [← this, e1, mul_one]
+    have h1 : (ginv ^ j * g ^ K) ^ n = 1 := by
+      have hginv : ginv ^ n = 1 := by
+        have : (ginv * g) ^ n = 1 := by rw [hinv, one_pow]
+        rwa [mul_pow, hg.pow_eq_one, mul_one] at this
+      rw [mul_pow, ← pow_mul, ← pow_mul, Nat.mul_comm j n, Nat.mul_comm K n, pow_mul, pow_mul,
+        hginv, hg.pow_eq_one, one_pow, one_pow, one_mul]
+    have := geom_sum_mul (ginv ^ j * g ^ K) n
+    rw [h1, sub_self] at this
+    exact (mul_eq_zero.1 this).resolve_right (sub_ne_zero.2 hne)
+
+theorem Domain.Good.offsetInv_pow {d : Domain F} (hd : d.Good) (i : Nat) :
+    d.offsetInv ^ i * d.offset ^ i = 1 := by
+  rw [← mul_pow, hd.offInv, one_pow]
+
+theorem Domain.Good.primInv {d : Domain F} (hd : d.Good) : IsPrimitiveRoot d.groupGenInv d.size := by
+  rw [hd.genInv_eq]; exact hd.prim.inv
+
+/-- closed form of `MixedRadixEvaluationDomain::ifft_in_place` -/
+theorem mixedIfft_closed (P : Params F) (q : Nat) (hq : P.smallBase = some q) (hq2 : 2 ≤ q)
+    (hodd : q % 2 = 1) (d : Domain F) (hd : d.Good) (k : Nat)
+    (hsize : d.size = 2 ^ d.logSizeOfGroup * q ^ k) (h32 : k = 0 → d.logSizeOfGroup ≤ 32)
+    (evals : List F) :
+    mixedIfft P d evals = .ok (tab d.size (fun i =>
+      dftF d.size d.groupGenInv (fn (resize evals d.size 0)) i * (d.sizeInv * d.offsetInv ^ i))) := by
+  unfold mixedIfft
+  have hlen := resize_length evals d.size 0
+  rw [serialMixedRadixFft_spec P q hq hq2 hodd _ d.groupGenInv d.logSizeOfGroup k
+    (by rw [hlen]; exact hsize) (by rw [hlen]; exact hd.size_lt) (by rw [hlen]; exact hd.primInv) h32,
+    hlen]
+  simp only
+  congr 1
+  by_cases h : d.offset = 1
+  · rw [if_pos h]
+    have h1 : d.offsetInv = 1 := by have := hd.offInv; rwa [h, mul_one] at this
+    simp only [tab, List.map_map, h1, one_pow, mul_one]
+    rfl
+  · rw [if_neg h, distributePowersAndMulByConst_eq, tab_length]
+    apply tab_congr
+    intro i hi
+    rw [fn_tab _ _ hi]
+
+/-- `ifft_in_place` interpolates: the output `c` (length `n`) evaluates to the (zero-padded) input
+    on the domain -/
+theorem mixedIfft_spec (P : Params F) (q : Nat) (hq : P.smallBase = some q) (hq2 : 2 ≤ q)
+    (hodd : q % 2 = 1) (d : Domain F) (hd : d.Good) (k : Nat)
+    (hsize : d.size = 2 ^ d.logSizeOfGroup * q ^ k) (h32 : k = 0 → d.logSizeOfGroup ≤ 32)
+    (evals : List F) :
+    ∃ c, mixedIfft P d evals = .ok c ∧ c.length = d.size ∧
+      (elements d).map (evalL c) = resize evals d.size 0 := by
+  refine ⟨_, mixedIfft_closed P q hq hq2 hodd d hd k hsize h32 evals, tab_length _ _, ?_⟩
+  rw [elements_eq, List.map_map]
+  have hl := resize_length evals d.size 0
+  conv_rhs => rw [← tab_fn (resize evals d.size 0), hl]
+  apply tab_congr
+  intro K hK
+  rw [Function.comp, evalL_eq_sum_of_le _ _ (le_of_eq (tab_length _ _))]
+  set e := fn (resize evals d.size 0) with he
+  have step : ∀ i ∈ Finset.range d.size,
+      fn (tab d.size (fun i => dftF d.size d.groupGenInv e i * (d.sizeInv * d.offsetInv ^ i))) i *
+        (d.offset * d.groupGen ^ K) ^ i =
+      ∑ j ∈ Finset.range d.size, e j * d.sizeInv * (d.groupGenInv ^ (j * i) * d.groupGen ^ (K * i)) := by
+    intro i hi
+    rw [fn_tab _ _ (Finset.mem_range.1 hi), dftF, Finset.sum_mul, Finset.sum_mul]
+    apply Finset.sum_congr rfl
+    intro j _
+    rw [mul_pow, ← pow_mul]
+    have := hd.offsetInv_pow i
+    linear_combination (e j * d.groupGenInv ^ (j * i) * d.sizeInv * d.groupGen ^ (K * i)) * this
+  rw [Finset.sum_congr rfl step, Finset.sum_comm]
+  have step2 : ∀ j ∈ Finset.range d.size,
+      ∑ i ∈ Finset.range d.size, e j * d.sizeInv * (d.groupGenInv ^ (j * i) * d.groupGen ^ (K * i)) =
+      if j = K then e j else 0 := by
+    intro j hj
+    rw [← Finset.mul_sum, orth_sum hd.prim hd.genInv (Finset.mem_range.1 hj) hK]
+    split
+    · rw [mul_assoc, hd.sizeInv, mul_one]
+    · rw [mul_zero]
+  rw [Finset.sum_congr rfl step2, Finset.sum_ite_eq' (Finset.range d.size) K]
+  simp [hK]
+
+/-- round trip: `ifft(fft(c))` is `c` zero-padded to the domain size -/
+theorem mixedIfft_mixedFft (P : Params F) (q : Nat) (hq : P.smallBase = some q) (hq2 : 2 ≤ q)
+    (hodd : q % 2 = 1) (d : Domain F) (hd : d.Good) (k : Nat)
+    (hsize : d.size = 2 ^ d.logSizeOfGroup * q ^ k) (h32 : k = 0 → d.logSizeOfGroup ≤ 32)
+    (c : List F) (hc : c.length ≤ d.size) :
+    ∃ ys, mixedFft P d c = .ok ys ∧ mixedIfft P d ys = .ok (resize c d.size 0) := by
+  refine ⟨_, mixedFft_spec P q hq hq2 hodd d hd k hsize h32 c hc, ?_⟩
+  rw [mixedIfft_closed P q hq hq2 hodd d hd k hsize h32]
+  congr 1
+  have hl := resize_length c d.size 0
+  conv_rhs => rw [← tab_fn (resize c d.size 0), hl]
+  have hev : (elements d).map (evalL c) = tab d.size (fun K => evalL c (d.offset * d.groupGen ^ K)) := by
+    rw [elements_eq, List.map_map]; rfl
+  apply tab_congr
+  intro i hi
+  rw [fn_resize_zero c _ _ hi, dftF]
+  have step : ∀ K ∈ Finset.range d.size,
+      fn (resize ((elements d).map (evalL c)) d.size 0) K * d.groupGenInv ^ (K * i) =
+      ∑ j ∈ Finset.range d.size, fn c j * d.offset ^ j * (d.groupGenInv ^ (i * K) * d.groupGen ^ (j * K)) := by
+    intro K hK
+    have hK' := Finset.mem_range.1 hK
+    rw [fn_resize_zero _ _ _ hK', hev, fn_tab _ _ hK', evalL_eq_sum_of_le c _ hc, Finset.sum_mul]
+    apply Finset.sum_congr rfl
+    intro j _
+    rw [mul_pow, ← pow_mul, Nat.mul_comm K j, Nat.mul_comm K i]; ring
+  rw [Finset.sum_congr rfl step, Finset.sum_comm]
+  have step2 : ∀ j ∈ Finset.range d.size,
+      ∑ K ∈ Finset.range d.size, fn c j * d.offset ^ j * (d.groupGenInv ^ (i * K) * d.groupGen ^ (j * K)) =
+      if i = j then fn c j * d.offset ^ j * (d.size : F) else 0 := by
+    intro j hj
+    rw [← Finset.mul_sum, orth_sum hd.prim hd.genInv hi (Finset.mem_range.1 hj)]
+    split
+    · rfl
+    · rw [mul_zero]
+  rw [Finset.sum_congr rfl step2, Finset.sum_ite_eq (Finset.range d.size) i]
+  simp only [Finset.mem_range, hi, if_true]
+  have h1 := hd.offsetInv_pow i
+  have h2 := hd.sizeInv
+  linear_combination (fn c i * d.offset ^ i * d.offsetInv ^ i) * h2 + fn c i * h1
+
+end Field
+
+/-! ## the permutation step is a bijection -/
+
+theorem surj_of_inj_lt (f : Nat → Nat) (n : Nat) (hmap : ∀ i, i < n → f i < n)
+    (hinj : ∀ i j, i < n → j < n → f i = f j → i = j) : ∀ p, p < n → ∃ i, i < n ∧ f i = p := by
+  intro p hp
+  have hsub : (Finset.range n).image f ⊆ Finset.range n := by
+    intro x hx
+    obtain ⟨i, hi, rfl⟩ := Finset.mem_image.1 hx
+    exact Finset.mem_range.2 (hmap i (Finset.mem_range.1 hi))
+  have hcard : ((Finset.range n).image f).card = n := by
+    rw [Finset.card_image_of_injOn, Finset.card_range]
+    intro i hi j hj h
+    exact hinj i j (Finset.mem_range.1 (by exact_mod_cast hi)) (Finset.mem_range.1 (by exact_mod_cast hj)) h
+  have heq := Finset.eq_of_subset_of_card_le hsub (by rw [hcard, Finset.card_range])
+  have : p ∈ (Finset.range n).image f := by rw [heq]; exact Finset.mem_range.2 hp
+  obtain ⟨i, hi, rfl⟩ := Finset.mem_image.1 this
+  exact ⟨i, Finset.mem_range.1 hi, rfl⟩
+
+/-- `mixed_radix_fft_permute(s, k, q, n, ·)` is a bijection of `[0, n)` for `n = 2^s·q^k` -/
+theorem mixedRadixFftPermute_bij (s k q n : Nat) (hq : 0 < q) (hn : n = 2 ^ s * q ^ k) :
+    (∀ i, i < n → mixedRadixFftPermute s k q n i < n) ∧
+    (∀ i j, i < n → j < n → mixedRadixFftPermute s k q n i = mixedRadixFftPermute s k q n j → i = j) ∧
+    (∀ p, p < n → ∃ i, i < n ∧ mixedRadixFftPermute s k q n i = p) := by
+  have hposR : ∀ r ∈ List.replicate s 2 ++ List.replicate k q, 0 < r := by
+    intro r hr
+    simp only [List.mem_append, List.mem_replicate] at hr
+    omega
+  have hprod : (List.replicate s 2 ++ List.replicate k q).prod = n := by simp [hn]
+  have h1 : ∀ i, i < n → mixedRadixFftPermute s k q n i < n := by
+    intro i _
+    rw [mixedRadixFftPermute_eq s k q n i hq hn]
+    conv_rhs => rw [← hprod]
+    exact pos_lt _ hposR i
+  have h2 : ∀ i j, i < n → j < n →
+      mixedRadixFftPermute s k q n i = mixedRadixFftPermute s k q n j → i = j := by
+    intro i j hi hj h
+    rw [mixedRadixFftPermute_eq s k q n i hq hn, mixedRadixFftPermute_eq s k q n j hq hn] at h
+    exact pos_inj _ hposR i j (by rw [hprod]; exact hi) (by rw [hprod]; exact hj) h
+  exact ⟨h1, h2, surj_of_inj_lt _ n h1 h2⟩
+
+/-- "Applying the permutation": entry `i` moves to position `perm i` -/
+theorem applyPermutation_mixedRadix {F : Type} (s k q : Nat) (hq : 0 < q) (a : List F)
+    (hn : a.length = 2 ^ s * q ^ k) :
+    (applyPermutation (mixedRadixFftPermute s k q a.length) a).length = a.length ∧
+    ∀ i, i < a.length →
+      (applyPermutation (mixedRadixFftPermute s k q a.length) a)[mixedRadixFftPermute s k q a.length i]?
+        = a[i]? := by
+  obtain ⟨h1, h2, -⟩ := mixedRadixFftPermute_bij s k q a.length hq hn
+  exact applyPermutation_spec _ a h1 h2
+
+
+/-! ## end to end: `new` → `get_coset` → `fft_in_place` / `ifft_in_place` -/
+section Field
+variable {F : Type} [Field F] [DecidableEq F]
+
+theorem mixedFft_of_mixedNew (P : Params F) (w : F) (q k : Nat) (hw : P.largeRoot = some w)
+    (hq : P.smallBase = some q) (hk : P.smallAdicity = some k) (hq2 : 2 ≤ q) (hodd : q % 2 = 1)
+    (hq64 : q < 2 ^ 64) (hord : orderOf w = 2 ^ P.twoAdicity * q ^ k)
+    (n : Nat) (hn : n ≤ 2 ^ 63) (a b : Nat) (ha : a ≤ P.twoAdicity) (hb : b ≤ k)
+    (hge : n ≤ 2 ^ a * q ^ b) (hlt : 2 ^ a * q ^ b ≤ 2 ^ 32) (h : F) (hh : h ≠ 0) :
+    ∃ d d', mixedNew P n = .ok (some d) ∧ getCoset d h = some d' ∧ d'.Good ∧ n ≤ d'.size ∧
+      d'.offset = h ∧
+      ∀ c : List F, c.length ≤ d'.size →
+        mixedFft P d' c = .ok ((elements d').map (evalL c)) ∧
+        mixedIfft P d' ((elements d').map (evalL c)) = .ok (resize c d'.size 0) := by
+  obtain ⟨a', b', g, ha', hb', hge', hlt', hmin, hgord, hnew, hgood⟩ :=
+    mixedNew_some P w q k hw hq hk hq2 hodd hq64 hord n hn a b ha hb hge
+      (lt_of_le_of_lt hlt (by norm_num))
+  obtain ⟨d', hd', hgood', hsz, hlog, -, -, -, -, hoff, -, -⟩ := getCoset_good _ hgood hh
+  have hsize : d'.size = 2 ^ d'.logSizeOfGroup * q ^ b' := by rw [hsz, hlog]; rfl
+  have h32 : b' = 0 → d'.logSizeOfGroup ≤ 32 := by
+    intro hb0
+    have hle : 2 ^ a' * q ^ b' ≤ 2 ^ 32 := le_trans (hmin a b ha hb hge) hlt
+    rw [hb0, pow_zero, Nat.mul_one] at hle
+    rw [hlog]
+    exact (Nat.pow_le_pow_iff_right (by norm_num)).1 hle
+  refine ⟨_, d', hnew, hd', hgood', by rw [hsz]; exact hge', hoff, ?_⟩
+  intro c hc
+  obtain ⟨ys, h1, h2⟩ := mixedIfft_mixedFft P q hq hq2 hodd d' hgood' b' hsize h32 c hc
+  have h3 := mixedFft_spec P q hq hq2 hodd d' hgood' b' hsize h32 c hc
+  rw [h3] at h1
+  cases h1
+  exact ⟨h3, h2⟩
 
 end Field
 
